@@ -586,3 +586,77 @@ pub fn c11p(s: &mut Sess, rng: &mut Rng, n: u64) {
         s.op("tracedrop");
     }
 }
+
+
+/// C11 as a system (`Props/C11System`): up to three real processes take turns OWNING one store —
+/// puts, removes, range removals, checkpoints by the owner; clean hand-overs (close, then whoever
+/// opens next) and deaths (SIGKILL, then whoever opens next: recovery); calls of `open` by the
+/// other processes in between, which must be refused and change nothing. The model answers with
+/// ONE world (`mRun_eq_lRun`: a multi-process run is the single-owner run of the owners' steps);
+/// on top, the ordered-map oracle over completed operations follows every read and iteration
+/// through all the hand-overs.
+pub fn c11sys(s: &mut Sess, rng: &mut Rng, n: u64) {
+    for _ in 0..n {
+        s.begin_case(&format!("cfg kind=bytes n={} sync=1 pre=0", *rng.pick(&[2u64, 3, 10_000])));
+        s.op("lk reset");
+        let mut owner: Option<usize> = None;
+        let mut oracle: std::collections::BTreeMap<Vec<u8>, Vec<u8>> = Default::default();
+        let steps = rng.range(12, 30);
+        for _ in 0..steps {
+            match owner {
+                None => {
+                    let p = rng.below(3) as usize;
+                    let r = s.op(&format!("at {p} open"));
+                    if r.starts_with("ok") { owner = Some(p); s.out.count("c11sys.granted"); }
+                    else { s.out.oracle_fail(format!("C11: nobody owns the directory, yet process {p}'s open answered `{r}`")); break; }
+                }
+                Some(o) => match rng.below(12) {
+                    0..=4 => {
+                        let k = vec![b'a' + rng.below(4) as u8];
+                        if rng.chance(1, 4) {
+                            let r = s.op(&format!("at {o} remove {}", hx(&k)));
+                            let want = if oracle.remove(&k).is_some() { "true" } else { "false" };
+                            if r != want { s.out.oracle_fail(format!("C11/C01: remove {} by owner {o} returned `{r}`, the ordered map says {want}", hx(&k))); }
+                        } else {
+                            let c = vec![b'x' + rng.below(3) as u8; rng.range(1, 4) as usize];
+                            let r = s.op(&format!("at {o} put {} ={}", hx(&k), hx(&c)));
+                            if r.starts_with("ok") { oracle.insert(k, c); } else { s.out.oracle_fail(format!("C11: put by owner {o} failed: {r}")); }
+                        }
+                        s.out.count("c11sys.owner-op");
+                    }
+                    5 => { s.op(&format!("at {o} checkpoint")); }
+                    6..=7 => {
+                        let q = (o + 1 + rng.below(2) as usize) % 3;
+                        let r = s.op(&format!("at {q} open"));
+                        if !r.starts_with("err alreadyOpened") { s.out.oracle_fail(format!("C11: process {o} owns the directory, yet process {q}'s open answered `{r}`")); }
+                        // a process that was refused has no handle
+                        let r2 = s.op(&format!("at {q} get 61"));
+                        if r2 != "nohandle" { s.out.oracle_fail(format!("C11: the refused process {q} can read: `{r2}`")); }
+                        s.out.count("c11sys.refused");
+                    }
+                    8 => { s.op(&format!("at {o} close")); owner = None; s.out.count("c11sys.hand-over"); }
+                    9 => { s.op(&format!("at {o} die")); owner = None; s.out.count("c11sys.owner-died"); }
+                    _ => {
+                        let k = vec![b'a' + rng.below(4) as u8];
+                        let r = s.op(&format!("at {o} get {}", hx(&k)));
+                        let want = match oracle.get(&k) { Some(c) => format!("found {} {}", c.len(), blake3::hash(c).to_hex()), None => "absent".into() };
+                        if r != want { s.out.oracle_fail(format!("C11/C01: get {} by owner {o} returned `{r}`, the ordered map through all hand-overs says `{want}`", hx(&k))); }
+                        s.op("dump");
+                    }
+                },
+            }
+        }
+        if let Some(o) = owner { s.op(&format!("at {o} die")); }
+        s.op("lk reset");
+        // whoever comes next — here the harness's own worker — finds the store of the last owner
+        if !s.op("open").starts_with("ok") { s.out.oracle_fail("C11: open after every process is gone failed".into()); }
+        for (k, c) in &oracle {
+            let r = s.op(&format!("get {}", hx(k)));
+            let want = format!("found {} {}", c.len(), blake3::hash(c).to_hex());
+            if r != want { s.out.oracle_fail(format!("C11/C03: after all hand-overs get {} returned `{r}`, expected `{want}`", hx(k))); }
+        }
+        s.op("iter");
+        s.op("close");
+        s.op("tracedrop");
+    }
+}
